@@ -86,3 +86,47 @@ contract(
     locals={"column_names": Cols, "records": Records, "record": Record},
     calls={},
 )
+
+# ---------------------------------------------------------------------------------------------
+# Cell formatting of dates (C18: "every cell is the scheduled value of that task rendered with the effective time
+# format"). TableReport._format_value dispatches on the dynamic type of `value`; the variant under contract is the one
+# the date columns (start, end) go through: value is a datetime. The effective format is taken from the property
+# statement: the report's own timeFormat, unless that is the default "%Y-%m-%d" and the project declares a timeformat.
+# `strftime`, the report attribute lookup `self.a(...)` and the project attribute record are uninterpreted (listed in
+# the trusted base); what is proved is *which* format and *which* value reach strftime on every path.
+fields_of("ProjAttrs", timeformat=Opt(Str))
+fields_of("TableReport", project=Ref("Project"))
+_eff = ("ite(uf_report_attr(self, 'timeFormat') == '%Y-%m-%d' and truthy_s(self.project.attributes['timeformat']), "
+        "self.project.attributes['timeformat'], uf_report_attr(self, 'timeFormat'))")
+ghost("truthy_s", ["s"], "s is not None and some(s) != ''")
+
+contract(
+    TR + "::TableReport._format_value", variant="datetime", props=["C18"],
+    params={"self": Ref("TableReport"), "value": DT, "column_id": Str}, ret=Str,
+    static={"isinstance(value, bool)": False, "isinstance(value, datetime)": True},
+    ensures=[
+        ("effective-format", f"implies(truthy_s({_eff}), result == uf_strftime(value, some({_eff})))"),
+        ("no-format", f"implies(not truthy_s({_eff}), result == uf_str_dt(value))"),
+    ],
+    calls={"self.a": ("spec", ["self", "name"], "uf_report_attr(self, name)"),
+           "value.strftime": ("spec", ["self", "fmt"], "uf_strftime(self, fmt)"),
+           "str": ("spec", ["x"], "uf_str_dt(x)")},
+    note="strftime/str of a datetime and the report attribute lookup are uninterpreted functions of their arguments",
+)
+
+# Cell value lookup: for every column other than the two derived money columns the cell value is the attribute of
+# *that* node, in *that* scenario when the column is scenario specific (start, end, effort, ...), else the
+# scenario-independent attribute. PropertyTreeNode.get and is_scenario_specific are uninterpreted (trusted base).
+fields_of("PropertyNode")
+contract(
+    TR + "::TableReport._get_cell_value", variant="attribute", props=["C18"],
+    params={"self": Ref("TableReport"), "property_node": Ref("PropertyNode"), "column_id": Str, "scenario_idx": Int},
+    ret=Ref("Value"),
+    requires=[("plain-column", "column_id != 'revenue' and column_id != 'cost'")],
+    static={"hasattr(property_node, 'get')": True},
+    ensures=[("that-node-that-scenario",
+              "result == uf_node_get(property_node, column_id, ite(uf_scen_specific(column_id), scenario_idx, 0 - 1))")],
+    calls={"self.is_scenario_specific": ("spec", ["self", "c"], "uf_scen_specific(c)"),
+           "property_node.get": ("spec", ["self", "name", "sc"], "uf_node_get(self, name, sc)", {"sc": -1})},
+    may_raise=[],
+)
